@@ -3,7 +3,7 @@
  "name": "p1_mark_table_blocks",
  "props": ["C02"],
  "level": "U",
- "tier": "wip",
+ "tier": "quick",
  "tier_after_hooks": "quick",
  "harness": "h_mtb",
  "loop_contracts": true,
